@@ -484,6 +484,48 @@ func c19(c *Ctx) {
 			}
 		}
 	}
+	// Z3h: no measurement is thrown away where it is taken
+	if gst != nil {
+		nCalls := 0
+		for _, fi := range c.P.FuncsIn("timesafeguard") {
+			if fi.Body() == nil {
+				continue
+			}
+			info := fi.Info()
+			ast.Inspect(fi.Body(), func(n ast.Node) bool {
+				var lhs []ast.Expr
+				var rhs ast.Expr
+				switch x := n.(type) {
+				case *ast.AssignStmt:
+					if len(x.Rhs) == 1 {
+						lhs, rhs = x.Lhs, x.Rhs[0]
+					}
+				case *ast.ExprStmt:
+					rhs = x.X
+				}
+				call, ok := rhs.(*ast.CallExpr)
+				if !ok {
+					return true
+				}
+				if fn := astx.Callee(info, call); fn == nil || fn != gst.Obj {
+					return true
+				}
+				nCalls++
+				kept := false
+				if len(lhs) > 0 {
+					if id, ok := lhs[0].(*ast.Ident); ok && id.Name != "_" {
+						kept = true
+					}
+				}
+				r.Check(kept, "C19.Z3", fi.Name(), "the measurement taken by getServerTime is kept", c.P.Pos(call.Pos()), "first result bound to a variable",
+					"a peer is asked for its time and the measurement is discarded (only its peer list or status is used): that peer's clock is not judged here, and if it is re-measured elsewhere a failure there is merely logged")
+				return true
+			})
+		}
+		if nCalls < 2 {
+			r.Break("C19.Z3: only %d calls of getServerTime found", nCalls)
+		}
+	}
 	// Z3b: collectTime stores a measurement only on the nil-error edge
 	{
 		info := ct.Info()
@@ -791,6 +833,24 @@ func c19(c *Ctx) {
 			}
 		}
 		r.Check(reqV >= 0, "C19.Z5", gst.Name(), "request call found", c.P.Pos(gst.Node().Pos()), "health.GetServerStatus", "getServerTime does not call health.GetServerStatus")
+		// Z5d: a peer counts as "did not answer" exactly when the request failed: the error handed back is the request's own
+		for _, rv := range gg.Returns() {
+			rs := rv.Node.(*ast.ReturnStmt)
+			if len(rs.Results) == 0 {
+				continue
+			}
+			last := rs.Results[len(rs.Results)-1]
+			okErr := false
+			if d := uniqueDef(gi, gst.Node(), last); d != nil {
+				if call, ok := ast.Unparen(d).(*ast.CallExpr); ok {
+					if fn := astx.Callee(gi, call); fn != nil && fname(fn) == "GetServerStatus" {
+						okErr = true
+					}
+				}
+			}
+			r.Check(okErr, "C19.Z5", gst.Name(), "the error handed back is the request's own", c.P.Pos(rs.Pos()), "single definition: health.GetServerStatus",
+				"getServerTime can report an error for a peer that did answer (or none for one that did not): collectTime leaves such a peer's slot empty and synchronizedWithNetwork ignores it as silent — a peer about which nothing can be proven (e.g. a very slow answer) is trusted instead of making the node refuse")
+		}
 		for _, cl := range compositeLitsOf(gi, gst.Body(), pathTimesafe, "timeResult") {
 			litV := gg.VertexOf(cl)
 			st := litField(cl, "Start")
